@@ -1324,12 +1324,16 @@ func convertDateFormat(format string) string {
 		"s": "05", // Seconds with leading zeros
 	}
 
-	result := format
-	for phpFormat, goFormat := range replacements {
-		result = strings.ReplaceAll(result, phpFormat, goFormat)
+	var result strings.Builder
+	for _, c := range format {
+		if goFormat, ok := replacements[string(c)]; ok {
+			result.WriteString(goFormat)
+		} else {
+			result.WriteRune(c)
+		}
 	}
 
-	return result
+	return result.String()
 }
 
 // Additional filter implementations
